@@ -102,7 +102,9 @@ def r2_diagnostics(ctx, prog, cfg):
             if b.crate not in ("leptos_i18n_parser", "leptos_i18n_macro", "leptos_i18n_build"):
                 continue
             if any(True for _ in b.aggregates("warning::Warning", variant)):
-                sites.append(name)
+                # (a closure, or a private helper with a single caller, belongs to the function it was extracted from)
+                sites.append(M.owner_of(prog, name))
+        sites = sorted(set(sites))
         if sites == ["leptos_i18n_parser::parse_locales::locale::Locale::merge"]:
             r.inst("who-may-emit " + variant, "only Locale::merge", cfg=cfg)
         elif not sites and suppress and variant == "SurplusKey":
